@@ -19,6 +19,10 @@ CLAIMED = {
    technique="Kani/CBMC on the lexer's conversion kernels + MIR symbolic execution/z3 on the glue between phases; nasty-text replay on oal-cli and oal_wasm::compile",
    text="Partial: the conversion kernels and the glue between phases, not lexer+parser+compiler as a whole. Kani: parse_number on every [0-9]{1,24} string, parse_quoted_string / parse_prefixed_string on every delimiter + <= K arbitrary scalar values (K=3 quick, 6 thorough), parse_http_status on [1-5]XX, CharSpan::from on every text <= K chars and every usize pair never panic and return the specified slice/value (token regexes are compared with the #[regex] attributes at run time). MIR+z3: oal_syntax::parse returns no tree only after pushing an error (from lemmas: tokenize always returns Some, compose_node always returns Node, parse_program returns Ok((_, compose_node(..)))); WebLoader::parse's unwrap is unreachable under that contract, ProcLoader/WorkspaceLoader never unwrap; Context::span past the end is end..end+1 without a token lookup; occurs() descends into every Tag child (guard against a diverging reduce); every panicking path in the front-end glue functions is either refuted or rests on a listed environment contract.",
    note="Trusted: Kani/CBMC, rustc MIR, mirsym, z3; stub Locator. Outside: the logos DFA, parser productions, resolver, evaluator, nesting depth, the LSP process, literals > 24 digits. Kernel counterexamples are replayed natively (Kani concrete playback) and through oal-cli / oal_wasm::compile; lemma failures are reported only if a nasty-text run of the real front ends crashes."),
+ "C06": dict(engine="M", category="model_checking", design="DESIGN.md 3/C06",
+   technique="seed non-interference: MIR symbolic execution with hash-iteration/clock primitives given a hidden seed argument, two-run z3 query per function, propagated up the call graph; repeated fresh-process oal-cli runs as replay",
+   text="Partial: hash-seed / clock non-interference of the pipeline's own code. On the call graph reachable from module::load, compile::compile, eval::eval, oal_syntax::parse, Builder::{new,with_base,into_openapi} (about 400 MIR bodies in four crates, closures and fn items followed) every callee is a deterministic function of its arguments except seeded primitives (iteration over HashMap/HashSet, clocks, RandomState, thread identity), which get a hidden seed. A function that calls something seeded is executed symbolically and z3 is asked whether its result, its heap writes or its loop-carried state can differ between two seeds (order-insensitive consumers such as any/all/count/collect-into-Hash* erase the seed); dependence is propagated to callers until the entry points. Values unbounded; each body once.",
+   note="Trusted: MIR text, mirsym, z3, name-based call resolution inside the dumps. Outside: non-determinism inside third-party crates, the file system/environment, repeated invocation in one process, the logos DFA bodies. A dependent entry point is reported only if repeated fresh-process runs of the real oal-cli at the same location produce different bytes."),
  "C07": dict(engine="M", category="model_checking", design="DESIGN.md 3/C07",
    technique="symbolic execution of MIR (one step from an arbitrary state) + z3; real-CLI verdict matrix as replay",
    text="Partial: step lemmas, not the end-to-end statement. occurs(): for every Tag variant and every Tag-typed child position read from the enum declaration, no feasible path returns false without recursing into that child (closures of iterator adaptors followed). unify(): union(x,y) is reached only with x a variable, after occurs(x,y) returned false, on (reduce(left),reduce(right)) up to orientation; literal Ok otherwise only when the reduced operands are equal; Func/Func requires equal binding counts and recurses on ranges and on every zipped binding pair; Property/Property recurses on the payloads; everything else is Err. UnionFind::union writes exactly parents[rep(left)] = rep(right); reduce/reduce_mut loop bodies move to the parent and stop exactly at a fixed point; find and the free reduce() substitute inside every child. Values unbounded; one loop iteration / one recursion level per lemma.",
@@ -44,7 +48,6 @@ CLAIMED = {
 NA = {
  "C02": "needs the denotation of every program vs. the emitted document: whole evaluator+emitter (IndexMap/HashMap/Rc/serde_yaml) under a solver; two HashMap inserts do not finish under Kani in 5 min; a hand model would be a second implementation, not the real code",
  "C05": "relates two whole compilations of rewritten programs; same obstacle as C02",
- "C06": "two-run non-interference over hashbrown seeds; hashbrown is beyond Kani here and a MIR scan for HashMap iteration is static analysis, not a solver verdict",
  "C08": "resolver/evaluator scoping over arena trees and HashMap scope stacks; no encoding within reach",
  "C09": "petgraph SCC iteration and SHA-256 naming over arena indices; outside Kani and loop/graph-shaped so outside the MIR engine",
  "C10": "worklist over HashMap<Locator,_> plus petgraph toposort for all import graphs; no bounded encoding of petgraph/hashbrown within reach",
